@@ -146,8 +146,17 @@ func (vc *VC) emit(o *Obl, dir string, idx int) (string, int, error) {
 		if len(sks) > 0 {
 			ctx := b.String()
 			var terms []string
+			nq := 0
+			for _, q := range vc.quants {
+				if strings.Contains(ctx, q.Text) {
+					nq++
+				}
+			}
 			for _, sk := range sks {
-				terms = append(terms, sk, "(- "+sk+" 1)", "(+ "+sk+" 1)")
+				terms = append(terms, sk)
+				if nq <= 6 {
+					terms = append(terms, "(- "+sk+" 1)", "(+ "+sk+" 1)")
+				}
 			}
 			type item struct {
 				q     quantRec
